@@ -7,6 +7,7 @@ from props import regpcommon as R
 ID = "C08"
 DRIVER = "drv_regp"
 HARNESS = "h_regp"
+THOROUGH_SEEDS = 2
 GEN = [constants.gen]
 TIE = ['Ufw.Tie.Regp', 'Ufw.Tie.Slip', 'Ufw.Tie.Varint']
 RULE = ("every emit entry point (read/write requests in 8/16-bit semantics, acknowledgement with and without payload, the eleven error "
